@@ -706,7 +706,7 @@ func main() {
 	r := rng.New(*seed)
 	nSeq, nConc, maxN := 1000, 1000, 5
 	if *tier == "thorough" {
-		nSeq, nConc, maxN = 30000, 30000, 6
+		nSeq, nConc, maxN = 20000, 20000, 6
 	}
 	witnesses(cw)
 	// exhaustive release subsets, ascending release order, for 1..maxN caches (6 in the thorough tier);
